@@ -780,5 +780,49 @@ fn main() {
         run.distinct(&(rep, dense.len()));
         run.count("kmeans-init");
     }
+    // ---- 4b. Layer::init on the preflop street: no clustering, the points themselves (n == k), else an abort
+    for extra in [0usize, 1] {
+        let street = Street::Pref;
+        let k = street.k();
+        let mut points: Vec<Histogram> = vec![];
+        let mut dense: Vec<Vec<usize>> = vec![];
+        let mut uniq = std::collections::BTreeSet::new();
+        while points.len() < k + extra {
+            let m = 5 + rng.below(20) as usize;
+            let center = rng.below(101) as i64;
+            let spread = 1 + rng.below(30) as i64;
+            let mut counts = vec![0usize; 101];
+            for _ in 0..m {
+                let x = (center + rng.range(-spread, spread)).clamp(0, 100) as usize;
+                counts[x] += 1;
+            }
+            if !uniq.insert(counts.clone()) { continue; }
+            let v: Vec<Abstraction> = counts.iter().enumerate().flat_map(|(i, c)| std::iter::repeat(Abstraction::from((Street::Rive, i))).take(*c)).collect();
+            points.push(Histogram::from(v));
+            dense.push(counts);
+        }
+        let layer = Layer::verif_new(street, Metric::default(), points.clone(), vec![]);
+        let idx = |hs: Vec<Histogram>| -> Vec<usize> {
+            hs.iter().map(|h| {
+                let mut c = vec![0usize; 101];
+                for (a, n) in h.verif_counts() { c[a.index()] = n; }
+                dense.iter().position(|d| *d == c).unwrap_or(usize::MAX)
+            }).collect()
+        };
+        let first = catch(std::panic::AssertUnwindSafe(|| idx(layer.verif_init())));
+        let second = catch(std::panic::AssertUnwindSafe(|| idx(layer.verif_init())));
+        run.evaluations += 2;
+        run.spec_checked += 1;
+        let op = format!("init {} {} {}", street as usize, k, dense.iter().map(|c| c.iter().enumerate().filter(|(_, n)| **n > 0).map(|(i, n)| format!("{i}={n}")).collect::<Vec<_>>().join(",")).collect::<Vec<_>>().join(";"));
+        let ans = match &first { Some(v) => v.iter().map(|i| i.to_string()).collect::<Vec<_>>().join(","), None => "panic".into() };
+        run.line(&op, &ans);
+        // oracle, independent of the model: exactly the points in their order when n == k; never a silent subset otherwise
+        let want: Option<Vec<usize>> = if extra == 0 { Some((0..k).collect()) } else { None };
+        if first != second || (extra == 0 && first != want) || (extra != 0 && first.as_ref().map(|v| v.len()) == Some(k + extra)) {
+            run.fail("init-preflop", &format!("Layer::init street preflop, {} points, k = {k}", k + extra), "the points themselves in order when n == k (an abort otherwise), the same on every invocation", &format!("{:?}", first.as_ref().map(|v| v.iter().take(6).collect::<Vec<_>>())));
+        }
+        run.distinct(&("init-pref", extra));
+        run.count("kmeans-init-preflop");
+    }
     run.finish();
 }
